@@ -124,6 +124,9 @@ class RefRT(object):
     def result(self, fr, value):
         raise RefResult(value)
 
+    def future_result(self, fr, value):
+        return lang.RefFutureResult(value)
+
     def make_exc(self, fr, site, cls):
         tag = ("raise", site, fr.path)
         return lang.make_user_exc(cls, tag)
